@@ -255,6 +255,14 @@ class ScriptedPeer(PeerBase):
             keep.append(v)
             self.send(s, v, 0, n, 1)
             return self.send(s, v, 0, n, 2)
+        if name == "baddup":            # the same corrupted answer twice in the same instant (a garbled answer duplicated on the way)
+            b = bytearray(v)
+            if self.framing == "tcp":
+                b[8] ^= 0x02
+            else:
+                b[-1] ^= 0x55
+            self.send(s, bytes(b), (args[0] if args else 0), n, 1)
+            return self.send(s, bytes(b), (args[0] if args else 0), n, 2)
         if name in ("close", "closelate"):
             d = 0.0 if name == "close" else 0.5 * T
             if self.framing == "tcp" or s.type & 0xF == 1:      # SOCK_STREAM: real EOF
@@ -276,6 +284,10 @@ class ScriptedPeer(PeerBase):
             else:
                 b[-1] ^= 0x55
             return self.send(s, bytes(b), args[0], n, 2, hops=(args[1] if len(args) > 1 else 0))
+        if name == "nowjunk":           # valid answer now, then a few stray bytes after a delay (line noise on the idle socket)
+            keep.append(v)
+            self.send(s, v, 0, n, 1)
+            return self.send(s, b"\x5a\x00\xa5", args[0], n, 2, hops=(args[1] if len(args) > 1 else 0))
         if name == "nowdup":            # valid answer now, an exact duplicate of it after a delay (arrives when the request is long over)
             keep.append(v)
             self.send(s, v, 0, n, 1)
